@@ -1,5 +1,6 @@
 import QmiModel.Model.Forward
 import QmiModel.Gen.StubBinding
+import QmiModel.Gen.C02Limits
 import Std.Data.String.ToNat
 /-!
 # C02 — a proxy call behaves like a direct call, locally and across contexts
@@ -515,6 +516,63 @@ theorem historical_keyword_collision :
       = .stubError .typeError ∧
     directCall exObj "echo" [] [("context", 0)] = .value 10 := by
   decide
+
+/-! ## limits that live in the source
+
+A value the sender accepts must arrive: the property quantifies over all picklable values, and the only documented
+limit is `MAX_MESSAGE_SIZE` with its documented error at the *sender*.  So the sender-side and the receiver-side
+checks must refuse exactly the same sizes, and no queue between proxy and worker may drop anything. -/
+
+/-- checks that compare the same quantity the same way refuse the same sizes — for every limit and every size -/
+theorem size_checks_agree (cs : List SizeCheck) (off : Nat) (strict : Bool)
+    (h : ∀ c ∈ cs, c.offset = off ∧ c.strict = strict) (limit size : Nat) :
+    ∀ c₁ ∈ cs, ∀ c₂ ∈ cs, c₁.refuses limit size = c₂.refuses limit size := by
+  intro c₁ h₁ c₂ h₂
+  obtain ⟨o₁, s₁⟩ := h c₁ h₁
+  obtain ⟨o₂, s₂⟩ := h c₂ h₂
+  simp [SizeCheck.refuses, o₁, s₁, o₂, s₂]
+
+/-- every comparison against `MAX_MESSAGE_SIZE` in the current source is `pickled size > limit` (no header bytes
+added on one side only), and there is a sender-side and a receiver-side one -/
+theorem gen_size_checks_same_quantity :
+    (∀ c ∈ QmiModel.Gen.C02Limits.sizeChecks, c.offset = 0 ∧ c.strict = true) ∧
+    (QmiModel.Gen.C02Limits.sizeChecks.any (·.sender)) = true ∧
+    (QmiModel.Gen.C02Limits.sizeChecks.any (fun c => !c.sender)) = true := by
+  decide
+
+/-- hence: **a message the sender puts on the wire is never refused by the receiver for its size**, at any limit -/
+theorem sent_message_is_accepted (limit size : Nat) :
+    ∀ s ∈ QmiModel.Gen.C02Limits.sizeChecks, s.sender = true → s.refuses limit size = false →
+    ∀ r ∈ QmiModel.Gen.C02Limits.sizeChecks, r.refuses limit size = false := by
+  intro s hs _ hacc r hr
+  rw [← size_checks_agree _ 0 true gen_size_checks_same_quantity.1 limit size s hs r hr]
+  exact hacc
+
+/-- the variant with 9 header bytes counted on the receiving side only is expressible and refuses sizes the sender
+accepts (`limit - 8 … limit`) -/
+theorem header_counted_on_one_side_disagrees :
+    (⟨"send", true, 0, true⟩ : SizeCheck).refuses 3000 2995 = false ∧
+    (⟨"recv", false, 9, true⟩ : SizeCheck).refuses 3000 2995 = true := by decide
+
+/-- an unbounded queue keeps every request, in order … -/
+theorem fifo_unbounded_no_loss (q rs : List α) : rs.foldl (fifoPush none) q = q ++ rs := by
+  induction rs generalizing q with
+  | nil => simp
+  | cons r rs ih => simp [List.foldl_cons, fifoPush, ih]
+
+/-- … a bounded one silently drops the oldest (expressible; not what the source does) -/
+theorem fifo_bounded_drops_oldest : [3, 4].foldl (fifoPush (some 3)) [1, 2] = [2, 3, 4] := by decide
+
+/-- **every queue constructed between proxy and worker in the current source is unbounded** (no `maxlen`/`maxsize`);
+with `fifo_unbounded_no_loss`: no burst of calls, however large, loses a request in a queue -/
+theorem gen_queues_unbounded : ∀ q ∈ QmiModel.Gen.C02Limits.queues, q.bound = none := by decide
+
+theorem gen_worker_fifo_found :
+    (QmiModel.Gen.C02Limits.queues.any (fun q => q.site == "rpc.py:_RpcThread.__init__:deque")) = true := by decide
+
+/-- the only `MAX_*` constant on the path is the message size limit; a new one is a new boundary to generate at -/
+theorem gen_limits_known :
+    ∀ l ∈ QmiModel.Gen.C02Limits.limits, l.1 ∈ ["messaging._PeerTcpConnection.MAX_MESSAGE_SIZE"] := by decide
 
 /-! ## locks: what a proxy forwards, and what an incompatible lock state does to a call -/
 
